@@ -337,3 +337,25 @@ Example C13_self_closing_trim_example :
   Some (STR "ab  cd", [(STR "pause", 3, 0)]%Z)
   /\ ((Z.of_nat (length (STR "ab ")) =? 0)%Z || is_space (TR.lastr (STR "ab ") 0%N) = true).
 Proof. split; vm_compute; reflexivity. Qed.
+
+(* the converse: a self-closing marker directly after a character that is not a blank swallows
+   nothing, whatever follows it (b may begin with blanks) *)
+Theorem C13_self_closing_after_nonblank_keeps : forall n ps a b,
+  P.name_ok n -> Forall P.prop_ok ps -> get_prop (P.pvalues ps) (STR "trimwhitespace") = None ->
+  str_eqb n (STR "character") = false ->
+  forallb plain_rune a = true -> forallb plain_rune b = true ->
+  forallb CP.no_colon a = true -> forallb CP.no_colon b = true ->
+  (Z.of_nat (length a) =? 0)%Z || is_space (TR.lastr a 0%N) = false ->
+  P.no_edge_space (a ++ b) ->
+  exists src, parse_markup (a ++ 91%N :: P.w_self n ps ++ b) =
+    Some (a ++ b, [{| aname := n; apos := Z.of_nat (length a); alen := 0; asrc := src;
+                      aprops := props_map (P.pvalues ps) |}]).
+Proof. exact TR.self_closing_after_nonblank_keeps. Qed.
+Print Assumptions C13_self_closing_after_nonblank_keeps.
+
+Example C13_self_closing_keep_example :
+  option_map (fun r => (fst r, map (fun a => (aname a, apos a, alen a)) (snd r)))
+    (parse_markup (STR "ab" ++ 91%N :: P.w_self (STR "pause") [(STR "ms", P.PVInt (STR "250"))] ++ STR "  cd")) =
+  Some (STR "ab  cd", [(STR "pause", 2, 0)]%Z)
+  /\ ((Z.of_nat (length (STR "ab")) =? 0)%Z || is_space (TR.lastr (STR "ab") 0%N) = false).
+Proof. split; vm_compute; reflexivity. Qed.
